@@ -8,7 +8,8 @@
     the state produced by NewPersistentBlockList + NewPeriodicSyncer, for any
     persistent state, any allocator answers, any hash seeds. *)
 From BBS Require Import Common.Sx Persist.PBL Persist.PBLProofs Persist.Syncer Persist.SyncerProofs Run.R07.
-From BBS Require Import Persist.LiveActs Persist.LiveCover Persist.LiveRelease Persist.LiveFair Persist.LiveTop.
+From BBS Require Import Persist.LiveActs Persist.LiveCover Persist.LiveRelease Persist.LiveFair Persist.LivePut
+  Persist.LiveBound Persist.LiveTop.
 Local Open Scope nat_scope.
 
 (** No schedule makes any step panic: in particular no wake-up channel is
@@ -109,8 +110,9 @@ Theorem failed_data_sync_is_retried : forall cfg s keep final t,
 Proof. exact failed_sync_is_retried. Qed.
 Print Assumptions failed_data_sync_is_retried.
 
-(** Ranking on the loops' program counters, per commit cycle (PARTIAL, see the
-    note below): every own step of a loop that is not a failed I/O call
+(** Ranking on the loops' program counters, per commit cycle (the names keep
+    `_partial`: these are the per-cycle rank lemmas; the full statements —
+    coverage, bounded liveness, commit bound — follow below): every own step of a loop that is not a failed I/O call
     strictly decreases the loop's rank, or it is the last step of
     writePersistentState — NotifyPersistentStateWritten, which releases exactly
     the blocks recorded by the preceding GetPersistentState; a failed I/O call
@@ -224,6 +226,155 @@ Theorem every_release_eventually_committed : forall cfg alloc oldest init t0 s,
     /\ releasedLog (s_pbl s') = (releasedLog (s_pbl s) ++ toRelease (s_pbl s))%list.
 Proof. exact release_eventually_reach. Qed.
 Print Assumptions every_release_eventually_committed.
+
+(** every_upload_eventually_committed: take ANY schedule [trp] after the
+    finalizer of an upload returned FinOk.  Then there is a fair extension of at
+    most 35 events (the put loop's own steps, <= 3 steps of the release loop when
+    it holds storeLock, clock advances past the interval timer / retry sleeps)
+    after which the upload's block has been released by PopFront, or
+    [scan ... = PhDone]: the executed schedule trp ++ ext contains, after the
+    acknowledgement and in this order, the start of a data sync, its completion,
+    a GetPersistentState of some loop and that same write's
+    NotifyPersistentStateWritten — and a completed state write ([s_writes]) whose
+    state covers the object.  The policy of the extension is explicit
+    (LivePut.choose) and the bound is a rank (LivePut.rank <= 35) that every chunk
+    of the policy lowers by its length (LivePut.progress_ph0..3). *)
+Theorem every_upload_eventually_committed : forall cfg alloc oldest init t0
+    s1 k blk seed s1' abs size off p' trp s,
+  reachable cfg alloc oldest init t0 s1 ->
+  step cfg s1 (EFinalize k blk seed) = Some (Ok s1') ->
+  nth_error (s_uploads s1) k = Some (Some (PutAt abs, size)) ->
+  put_finalize (PutAt abs) blk size seed (s_pbl s1) = Ok (p', FinOk off) ->
+  run cfg s1' trp = Some (Ok s) ->
+  exists ext s', fair ext = true /\ length ext <= 35 /\ run cfg s ext = Some (Ok s')
+    /\ (abs < totalReleased (s_pbl s')
+        \/ (scan cfg Ph0 s1' (trp ++ ext) = PhDone /\
+            exists w bi ei, In w (s_writes s') /\
+              covers (w_state w) bi (obj_of (s_pbl s1) p' abs (off + size)) ei)).
+Proof. exact upload_eventually. Qed.
+Print Assumptions every_upload_eventually_committed.
+
+(** upload_commit_bound, in terms of the virtual clock values of the model: an
+    upload is acknowledged at time t = s_now s1 with lastSynchronizationTime =
+    s_last s1.  Take any schedule [tr] afterwards during which no data sync has
+    started yet ([scan ... = Ph0]) and which is [urgent]: the clock never
+    advances while the put loop has an enabled internal step (its lock-protected
+    sections and channel selects take no virtual time; I/O calls, sleeps, the
+    timer and waiting for storeLock may).  Then, unless the upload's block has
+    been released, whenever the put loop waits on its interval timer the
+    deadline is at most max(t, lastSynchronizationTime) + minimumEpochInterval,
+    and lastSynchronizationTime is unchanged until that timer fires (no other
+    sync is scheduled in between: ONE interval, not two).  The covering sync is
+    started by the step after that timer (or immediately on shutdown); what
+    else separates it from t is I/O of the cycle in flight and timer latency. *)
+Theorem upload_commit_bound : forall cfg alloc oldest init t0 s1 k blk seed s1' abs size off p' tr s,
+  reachable cfg alloc oldest init t0 s1 ->
+  step cfg s1 (EFinalize k blk seed) = Some (Ok s1') ->
+  nth_error (s_uploads s1) k = Some (Some (PutAt abs, size)) ->
+  put_finalize (PutAt abs) blk size seed (s_pbl s1) = Ok (p', FinOk off) ->
+  run cfg s1' tr = Some (Ok s) -> urgent cfg s1' tr = true ->
+  scan cfg Ph0 s1' tr = Ph0 ->
+  abs < totalReleased (s_pbl s) \/
+  ((forall dl, s_p s = PTimer dl -> (dl <= N.max (s_now s1) (s_last s1) + c_interval cfg)%N)
+   /\ (s_p s <> PNotify true -> s_last s = s_last s1)).
+Proof. intros; eapply commit_bound; eauto. Qed.
+Print Assumptions upload_commit_bound.
+
+(** What is NOT stated: liveness over infinite traces (the bounded form above
+    replaces it: weak fairness + finitely many injected failures give a fair
+    stretch of the required length); a bound in wall-clock terms (the model's
+    clock is virtual; I/O durations and timer latency are the environment's). *)
+
+(** Non-vacuity of the coverage / liveness / bound theorems: empty store,
+    PushBack, Put of 5 bytes, finalizer (epoch 0, seed 77) at time 0; the
+    hypotheses of the theorems are met by the schedule of the example below and
+    the state written is (0, [block (0,100) write_offset 5 seeds [77]]). *)
+Example upload_covered_example :
+  let cfg := mkConfig 10 3 in
+  let s0 := init_sys (fst (pbl_new (fun _ _ => false) 0 nil)) 0 in
+  let ok := EStep TP (mkAns true 0) in
+  let r := EStep TR (mkAns true 0) in
+  let pre := (r :: ok :: ok :: EPushBack (Some (0, 100)%Z) :: EPutStart 0 5 :: nil)%list in
+  let trA := (ok :: ETick 10 :: EStep TP (mkAns false 10) :: nil)%list in
+  match run cfg s0 pre with
+  | Some (Ok s1) =>
+    match step cfg s1 (EFinalize 0 (Some 0%Z) 77) with
+    | Some (Ok s1') =>
+      match run cfg s1' trA with
+      | Some (Ok s2) =>
+        match step cfg s2 ok with
+        | Some (Ok s2') =>
+          match run cfg s2' (ok :: nil)%list with
+          | Some (Ok s3) =>
+            match step cfg s3 ok with
+            | Some (Ok s3') =>
+              match run cfg s3' (ok :: nil)%list with
+              | Some (Ok s4) =>
+                match step cfg s4 ok with
+                | Some (Ok s4') =>
+                    nth_error (s_uploads s1) 0 = Some (Some (PutAt 0, 5%Z))
+                    /\ (exists p', put_finalize (PutAt 0) (Some 0%Z) 5 77 (s_pbl s1) = Ok (p', FinOk 0))
+                    /\ sync_starts s2 ok = true /\ sync_completes s3 ok = true
+                    /\ act_of s4 ok = AGetState TP
+                    /\ written_state s4' TP = Some (0%N, (mkBstate (0, 100)%Z 5%Z (77%N :: nil) :: nil)%list)
+                    /\ obj_of (s_pbl s1) (s_pbl s1') 0 5 = mkObj 0 (0, 100)%Z 5 0 77
+                    /\ urgent cfg s1' trA = true /\ scan cfg Ph0 s1' trA = Ph0
+                    /\ s_p s2 = PNotify true /\ s_sched s2 = (10%N :: nil)%list
+                    /\ scan cfg Ph0 s1' (trA ++ ok :: ok :: ok :: ok :: ok :: ok :: ok :: nil)%list = PhDone
+                | _ => False
+                end
+              | _ => False
+              end
+            | _ => False
+            end
+          | _ => False
+          end
+        | _ => False
+        end
+      | _ => False
+      end
+    | _ => False
+    end
+  | _ => False
+  end.
+Proof. vm_compute. repeat split; try reflexivity. eexists. reflexivity. Qed.
+
+(** ... and of release_covered: PopFront, then the release loop's write. *)
+Example release_covered_example :
+  let cfg := mkConfig 10 3 in
+  let s0 := init_sys (fst (pbl_new (fun _ _ => false) 0 nil)) 0 in
+  let r := EStep TR (mkAns true 0) in
+  let pre := (r :: EPushBack (Some (0, 100)%Z) :: EPushBack (Some (100, 100)%Z) :: nil)%list in
+  match run cfg s0 pre with
+  | Some (Ok s1) =>
+    match step cfg s1 EPopFront with
+    | Some (Ok s1') =>
+      match run cfg s1' (r :: r :: nil)%list with
+      | Some (Ok s4) =>
+        match step cfg s4 r with
+        | Some (Ok s4') =>
+          match run cfg s4' (r :: nil)%list with
+          | Some (Ok s5) =>
+            match step cfg s5 r with
+            | Some (Ok s5') =>
+                no_getstate cfg s1' (r :: r :: nil)%list = true /\ act_of s4 r = AGetState TR
+                /\ no_getstate cfg s4' (r :: nil)%list = true /\ act_of s5 r = AWritten TR
+                /\ toRelease (s_pbl s4) = ((0, 100)%Z :: nil)%list
+                /\ releasedLog (s_pbl s5') = ((0, 100)%Z :: nil)%list
+                /\ written_state s4' TR = Some (0%N, nil)
+            | _ => False
+            end
+          | _ => False
+          end
+        | _ => False
+        end
+      | _ => False
+      end
+    | _ => False
+    end
+  | _ => False
+  end.
+Proof. vm_compute. repeat split; reflexivity. Qed.
 
 (** Non-vacuity: an empty store; PushBack, Put + finalizer (creates epoch 0,
     closes the put channel), interval elapses, timer fires, sync ok, state
